@@ -193,6 +193,15 @@ def run_metamodel(case, d):
         captured[:] = r
         return r
     ex.get_unified_classes = spy
+    # rows of the match-rule table / legend: every dot_match_str call made while the trailer is rendered
+    orig_dms = ex.dot_match_str
+    rows = []
+
+    def dms_spy(cls_, other=None):
+        r = orig_dms(cls_, other)
+        rows.append([cls_.name, r])
+        return r
+    ex.dot_match_str = dms_spy
     try:
         if mode == "dot":
             ex.metamodel_export(mm, out)
@@ -211,6 +220,7 @@ def run_metamodel(case, d):
             out = os.path.join(od, names[0])
     finally:
         ex.get_unified_classes = orig
+        ex.dot_match_str = orig_dms
     with open(out, encoding="utf-8") as fh:
         text = fh.read()
     cl = []
@@ -221,7 +231,10 @@ def run_metamodel(case, d):
         cl.append({"name": c.name, "fqn": c.fqn, "typ": TYP.get(c.typ, str(c.typ)), "builtin": c.fqn in ALL_TYPE_NAMES or c.name in ALL_TYPE_NAMES,
                    "attrs": [{"name": a.name, "cls": a.cls.name, "clsid": idmap.get(id(a.cls), -1), "mult": a.mult, "cont": bool(a.cont), "ref": bool(a.ref)} for a in c.attrs],
                    "inh_by": [idmap.get(id(x), -1) for x in c.inh_by]})
-    return {"text": text, "classes": cl, "nclasses_mm": len(classes)}
+    if mode in ("dot", "gen_dot"):
+        from html import escape
+        rows = [[n, escape(t)] for n, t in rows]
+    return {"text": text, "classes": cl, "nclasses_mm": len(classes), "rows": rows}
 
 
 def run_escape(case, d):
